@@ -423,13 +423,101 @@ func ruleArgsConsumed(c *Ctx, r *Report) {
 		}
 		n++
 		key := fmt.Sprintf("%s/success-return[%d]", fname(term), n)
-		desc := "a term is returned only when every placeholder argument was consumed"
-		if c.lenFieldFact(c.factsAt(ret.Block()), "Parser", "args", true) {
+		// Corrected with fix F29. The first version demanded an empty queue at every successful return of Term -
+		// what the code did, and the reason why a text of several clauses could not use placeholders at all.
+		// The property asks that a count mismatch be an error: left-over arguments are reported by Term when it
+		// reads a single term, and by whoever put the parser into text mode at the end of the text.
+		desc := "a term is returned with arguments left over only in text mode (they belong to the following terms)"
+		textMode := false
+		for f := range c.factsAt(ret.Block()) {
+			v := f.cond
+			pol := f.pol
+			if u, ok := v.(*ssa.UnOp); ok && u.Op == token.NOT {
+				v, pol = u.X, !pol
+			}
+			if ld, ok := v.(*ssa.UnOp); ok && ld.Op == token.MUL && pol {
+				if fa, ok := ld.X.(*ssa.FieldAddr); ok && fieldName(fa) == "text" && isEngNamed(deref(fa.X.Type()), "Parser") {
+					textMode = true
+				}
+			}
+		}
+		switch {
+		case c.lenFieldFact(c.factsAt(ret.Block()), "Parser", "args", true):
 			r.ok(rule, key, c.at(ret), desc, "dominated by len(p.args)==0", true)
-		} else {
-			r.bad(rule, key, c.at(ret), desc, "a successful return is reachable with arguments left over: a count mismatch would go unreported")
+		case textMode:
+			r.ok(rule, key, c.at(ret), desc, "dominated by p.text == true", true)
+		default:
+			// the two facts may hold alternatively (len == 0 || text): cut-set check
+			reach := reachableAvoiding(term, ret.Block(), func(from *ssa.BasicBlock, i int, cond ssa.Value) bool {
+				// cut the edges on which "arguments are left and not in text mode" is refuted
+				if bo, ok := cond.(*ssa.BinOp); ok {
+					if _, isLen := lenOfField(bo.X, "Parser", "args"); isLen {
+						if k, ok := constInt(bo.Y); ok && k == 0 {
+							return (bo.Op == token.EQL && i == 0) || (bo.Op == token.NEQ && i == 1)
+						}
+					}
+				}
+				if ld, ok := cond.(*ssa.UnOp); ok && ld.Op == token.MUL {
+					if fa, ok := ld.X.(*ssa.FieldAddr); ok && fieldName(fa) == "text" {
+						return i == 0
+					}
+				}
+				if u, ok := cond.(*ssa.UnOp); ok && u.Op == token.NOT {
+					if ld, ok := u.X.(*ssa.UnOp); ok && ld.Op == token.MUL {
+						if fa, ok := ld.X.(*ssa.FieldAddr); ok && fieldName(fa) == "text" {
+							return i == 1
+						}
+					}
+				}
+				return false
+			})
+			if !reach {
+				r.ok(rule, key, c.at(ret), desc, "reached only across an edge that says len(p.args)==0 or p.text", true)
+			} else {
+				r.bad(rule, key, c.at(ret), desc, "a successful return is reachable with arguments left over outside text mode: a count mismatch would go unreported")
+			}
 		}
 	})
+	// whoever switches the parser into text mode reports the left-overs itself
+	for _, fn := range c.LibFuncs() {
+		var sets ssa.Instruction
+		eachInstr(fn, func(in ssa.Instruction) {
+			st, ok := in.(*ssa.Store)
+			if !ok {
+				return
+			}
+			fa, ok := st.Addr.(*ssa.FieldAddr)
+			if !ok || fieldName(fa) != "text" || !isEngNamed(deref(fa.X.Type()), "Parser") {
+				return
+			}
+			if k, ok := st.Val.(*ssa.Const); ok && k.Value != nil && k.Value.ExactString() == "true" {
+				sets = in
+			}
+		})
+		if sets == nil {
+			continue
+		}
+		key := fname(fn) + "/text-mode-end-check"
+		desc := "the reader of a text reports placeholder arguments that no clause used"
+		var miss ssa.Instruction
+		eachInstr(fn, func(in ssa.Instruction) {
+			ret, ok := in.(*ssa.Return)
+			if !ok || len(ret.Results) == 0 || !isNilConst(ret.Results[len(ret.Results)-1]) {
+				return
+			}
+			if !reachableFromAvoiding(sets.Block(), ret.Block(), nil) {
+				return
+			}
+			if !c.lenFieldFact(c.factsAt(ret.Block()), "Parser", "args", true) {
+				miss = in
+			}
+		})
+		if miss == nil {
+			r.ok(rule, key, c.at(sets), desc, "every successful return after the switch is dominated by len(p.args)==0", true)
+		} else {
+			r.bad(rule, key, c.at(miss), desc, "this successful return is reachable with arguments left over: too many arguments for the placeholders of the text go unreported")
+		}
+	}
 	// the substitution site
 	for _, fn := range c.LibFuncs() {
 		if fn.Signature.Recv() == nil || !isEngNamed(fn.Signature.Recv().Type(), "Parser") {
@@ -1060,4 +1148,16 @@ func ruleScanFreshDest(c *Ctx, r *Report) {
 		r.bad(rule, "scan/element-conversions", "-", desc, fmt.Sprintf("no element conversion inside a loop found (%d conversion calls seen)", n))
 	}
 	r.analysed(rule, fmt.Sprintf("%d calls of the conversion family, %d inside loops", n, nloop))
+}
+
+// lenOfField: v is len(x) with x a load of typ.field.
+func lenOfField(v ssa.Value, typ, field string) (ssa.Value, bool) {
+	call, ok := v.(*ssa.Call)
+	if !ok {
+		return nil, false
+	}
+	if b, ok := call.Call.Value.(*ssa.Builtin); !ok || b.Name() != "len" {
+		return nil, false
+	}
+	return loadsField(call.Call.Args[0], typ, field)
 }
